@@ -16,9 +16,12 @@ import sys
 import time
 
 REPO = "/repo"
-WT = "/tmp/mut/wt"
-VB = "/tmp/mut/vbuild"
-VO = "/tmp/mut/vout"
+# MUT_SHARD=i/n: this process handles every n-th still untested mutant (own worktree, build cache and output file
+# <out>.<i>), so that n processes can share the campaign; merge the parts with `cat`.
+SHARD_I, SHARD_N = (int(x) for x in os.environ.get("MUT_SHARD", "0/1").split("/"))
+WT = "/tmp/mut/wt%d" % SHARD_I
+VB = "/tmp/mut/vbuild%d" % SHARD_I
+VO = "/tmp/mut/vout%d" % SHARD_I
 
 CHECKS = {
     "encoder": ["C09", "C10", "C08", "C07", "C01"],
@@ -155,7 +158,8 @@ def main():
                 done.add((p[0], p[1], p[2]))
     env = dict(os.environ)
     env.update(VERIF_REPO=WT, VERIF_BUILD=VB, VERIF_OUT=VO, VERIF_WORKERS=os.environ.get("MUT_WORKERS", "8"), VERIF_DEADLINE_S="120")
-    with open(out, "a") as fo:
+    counter = 0
+    with open(out if SHARD_N == 1 else "%s.%d" % (out, SHARD_I), "a") as fo:
         for path in files:
             checks = relevant(path)
             if not checks:
@@ -169,6 +173,9 @@ def main():
                     continue
                 ml = list(lines)
                 if ml[ln] == newline:
+                    continue
+                counter += 1
+                if counter % SHARD_N != SHARD_I:
                     continue
                 ml[ln] = newline
                 open(path, "wb").write("\n".join(ml).encode())
